@@ -660,6 +660,37 @@ def _judge_row(ctx: RuleCtx, mod: Module, qn: str, what: str, key: str, r: table
                 r.path.events[-1].node if r.path.events else None)
 
 
+def _raised_class(mod: Module, qn: str, what: str, _depth: int = 0) -> str:
+    """`raise self.helper(..)` / `raise helper(..)`: the class every return of the error-building helper constructs (closed-world reading of the
+    helper: all its returns are looked at); a local class deriving from a parse error counts as that parse error.  Not resolvable -> Undecided."""
+    if what in PARSE_ERRORS:
+        return what
+    if mod.has_cls(what):
+        for b in mod.cls(what).bases:
+            if norm(b) in PARSE_ERRORS or (isinstance(b, ast.Name) and mod.has_cls(b.id) and _depth < 3 and _raised_class(mod, qn, b.id, _depth + 1) in PARSE_ERRORS):
+                return norm(b) if norm(b) in PARSE_ERRORS else 'ParseException'
+        return what
+    helper: T.Optional[ast.FunctionDef] = None
+    if what.startswith('self.') and '.' not in what[5:]:
+        helper = next((s for s in mod.cls('Parser').body if isinstance(s, ast.FunctionDef) and s.name == what[5:]), None)
+    elif '.' not in what:
+        helper = next((s for s in mod.tree.body if isinstance(s, ast.FunctionDef) and s.name == what), None)
+    if helper is None and '.' not in what and not any(isinstance(s, (ast.Assign, ast.AnnAssign)) and what in {norm(t) for t in getattr(s, 'targets', [getattr(s, 'target', None)]) if t is not None}
+                                                      for s in mod.tree.body):
+        return what         # an exception class of another module / a builtin: not a parse error of this module
+    if helper is None or _depth >= 3:
+        raise Undecided(f'{qn}: raises the result of {what}, which this rule cannot resolve to an exception class')
+    rets = [n for n in ast.walk(helper) if isinstance(n, ast.Return)]
+    classes = set()
+    for n in rets:
+        if not isinstance(n.value, ast.Call):
+            raise Undecided(f'{qn}: the error helper {what} returns `{short(n.value) if n.value else None}`, not a constructed exception')
+        classes.add(_raised_class(mod, qn, norm(n.value.func), _depth + 1))
+    if len(classes) != 1:
+        raise Undecided(f'{qn}: the error helper {what} returns {sorted(classes) or "nothing"}')
+    return next(iter(classes))
+
+
 def check_accept(ctx: RuleCtx, mod: Module) -> None:
     """accept / accept_any / expect: consume exactly when the token matches."""
     def eff(st: ast.AST) -> T.Optional[str]:
@@ -699,6 +730,8 @@ def check_accept(ctx: RuleCtx, mod: Module) -> None:
                 raise Undecided(f'Parser.{name}: unknown row {r!r}')
             v = acc[0][1]
             got = _row_result(r)
+            if not v and got[0] == 'raise' and got[1] not in PARSE_ERRORS:
+                got = ('raise', _raised_class(mod, f'Parser.{name}', got[1]))
             ok = got == ('return', 'True') if v else (got[0] == 'raise' and got[1] in PARSE_ERRORS)
             if not ok and v and got[0] == 'return' and got[1] not in ('True', 'False', 'None'):
                 raise Undecided(f'Parser.{name}: a row returns `{got[1]}`, an expression this rule cannot read per world')
